@@ -99,7 +99,10 @@ class MHistory:
         if self.guard(self.start, 'start') is None:
             return self
         n = self.rng.randint(*d.pf.n_steps)
-        restart_at = self.rng.randrange(n) if self.rng.random() < d.pf.p_restart else -1
+        restart_at = {self.rng.randrange(n)} if self.rng.random() < d.pf.p_restart else set()
+        every = getattr(d.pf, 'restart_every', 0)
+        if every:
+            restart_at |= {i for i in range(n) if self.rng.random() < every}
         for i in range(n):
             if self.aborted:
                 break
@@ -107,9 +110,13 @@ class MHistory:
             for _ in range(self.rng.choice([1, 1, 2, 3])):
                 kind = d.random_op()
                 integrity = integrity or kind == 'integrity'
+            if i in restart_at and self.rng.random() < 0.6:
+                # work piles up while no master runs: the new master's first cycle has to evict / move
+                for _ in range(self.rng.randint(1, 3)):
+                    d.op_create_apps(priority=self.rng.choice([50, 100, 100]))
             if self.rng.random() < 0.6:
                 d.op_running()
-            if i == restart_at:
+            if i in restart_at:
                 self.ctx.count('master_restarts')
                 d.ops.append(('restart',))
                 if self.guard(self.start, 'restart') is None:
@@ -128,6 +135,7 @@ class MHistory:
 
     def step(self, integrity):
         d = self.d
+        d.step_no += 1
         d.settle_delivery()
         if integrity:
             d.master.check_integrity()
